@@ -918,8 +918,13 @@ class InspectFunction(object):
         # For now, do not look carefully at the arguments, just parse the arguments of
         # the functions.
         # TODO: add more arguments if we can parse constant arguments
+        # The constant arguments of the call are taken into account (like for keep calls):
+        # the callee may be called with other values than its defaults.
+        call_kwargs = OrderedDict(
+            [(n.arg, n.value) for n in node.keywords if n.arg is not None]
+        )
         arg_ctx = FunctionArgContext(
-            named_args=get_arg_ctx_ast(caller_fun, [], OrderedDict()),
+            named_args=get_arg_ctx_ast(caller_fun, node.args, call_kwargs),  # type: ignore
             inner_call_key=context_sig,
         )
         new_call_stack = call_stack + [caller_fun_path]
